@@ -480,6 +480,18 @@ theorem forIn {α β} (l : List α) (f : α → β → Sql (ForInStep β)) (hf :
     | done b => exact pure b
     | yield b => exact ih b
 
+theorem forIn_mem {α β} (l : List α) (f : α → β → Sql (ForInStep β)) (hf : ∀ a ∈ l, ∀ b, Inv E P (f a b)) (b : β) :
+    Inv E P (ForIn.forIn l b f) := by
+  induction l generalizing b with
+  | nil => rw [List.forIn_nil]; exact pure b
+  | cons a l ih =>
+    rw [List.forIn_cons]
+    refine bind (hf a List.mem_cons_self b) ?_
+    intro r
+    cases r with
+    | done b => exact pure b
+    | yield b => exact ih (fun a' ha' => hf a' (List.mem_cons_of_mem _ ha')) b
+
 theorem stmt {β} (body : Db → Except SqlErr (β × Db))
     (h : ∀ d, P d → match body d with | .ok (_, d') => P d' | .error e => E e) : Inv E P (stmt body) := by
   rintro ⟨db, mem, n, f⟩ hf hP
